@@ -43,12 +43,22 @@ ssize_t read_data(zckCtx *zck, char *data, size_t length) {
         set_error(zck, "Unable to read to NULL data pointer");
         return -1;
     }
-    ssize_t read_bytes = read(zck->fd, data, length);
-    if(read_bytes == -1) {
-        set_error(zck, "Error reading data: %s", strerror(errno));
-        return -1;
+    /* A short count from read() is not the end of the file: keep reading until
+     * we have everything that was asked for or really reach the end */
+    size_t total = 0;
+    while(total < length) {
+        ssize_t read_bytes = read(zck->fd, data + total, length - total);
+        if(read_bytes == -1) {
+            if(errno == EINTR)
+                continue;
+            set_error(zck, "Error reading data: %s", strerror(errno));
+            return -1;
+        }
+        if(read_bytes == 0)
+            break;
+        total += read_bytes;
     }
-    return read_bytes;
+    return total;
 }
 
 int write_data(zckCtx *zck, int fd, const char *data, size_t length) {
